@@ -96,11 +96,14 @@ def axis_labels(draw, n, depth):
 
 @st.composite
 def frame_cases(draw):
-    n = draw(st.integers(1, 5))
-    m = draw(st.integers(1, 4))
+    # decisive choices first (late draws are pinned to their first option for a share of Hypothesis's examples)
     delim = draw(st.sampled_from([',', '\t', '|', ';']))
-    EDGE[0] = draw(st.integers(0, 7)) == 0
-    EDGE[1] = delim != '\t' or draw(st.integers(0, 7)) == 0
+    route = draw(st.sampled_from(['delimited', 'delimited', 'named']))
+    inc_i, inc_c, consolidate = draw(st.booleans()), draw(st.booleans()), draw(st.booleans())
+    n = draw(st.sampled_from([3, 2, 1, 4, 5]))
+    m = draw(st.sampled_from([3, 2, 1, 4]))
+    EDGE[0] = draw(st.integers(0, 7)) == 7
+    EDGE[1] = delim != '\t' or draw(st.integers(0, 7)) == 7
     idepth = draw(st.sampled_from([1, 1, 2, 3]))
     cdepth = draw(st.sampled_from([1, 1, 2]))
     il, idepth = draw(axis_labels(n, idepth))
@@ -129,8 +132,8 @@ def frame_cases(draw):
         else:
             cols.append(np.array(draw(st.lists(st.booleans(), min_size=n, max_size=n)), dtype=bool))
     return {'il': il, 'cl': cl, 'idepth': idepth, 'cdepth': cdepth, 'cols': cols, 'delim': delim,
-            'include_index': draw(st.booleans()) or idepth > 1 or (m == 1 and draw(st.integers(0, 7)) > 0), 'include_columns': draw(st.booleans()) or cdepth > 1, 'disable_filter': disable_filter,
-            'consolidate': draw(st.booleans()), 'route': draw(st.sampled_from(['delimited', 'delimited', 'named']))}
+            'include_index': inc_i or idepth > 1 or (m == 1 and draw(st.integers(0, 7)) < 7), 'include_columns': inc_c or cdepth > 1, 'disable_filter': disable_filter,
+            'consolidate': consolidate, 'route': route}
 
 
 def _index(labels, depth):
@@ -195,9 +198,10 @@ def check_delimited(case):
 
 @st.composite
 def struct_cases(draw):
+    route = draw(st.sampled_from(['pairs', 'records', 'items', 'pickle', 'deepcopy', 'pickle_he', 'pickle_go']))  # decisive choice first
     rec = draw(gen.frame_recipe(min_rows=0, max_rows=5, min_cols=0, max_cols=5, kinds=('bool', 'int64', 'float64', '<U3', 'object', 'M8[D]', 'int32'),
                                 index_kinds=('auto', 'int', 'str', 'date', 'ih'), column_kinds=('auto', 'int', 'str', 'ih')))
-    return {'rec': rec, 'route': draw(st.sampled_from(['pairs', 'records', 'items', 'pickle', 'deepcopy', 'pickle_he', 'pickle_go'])),
+    return {'rec': rec, 'route': route,
             'iname': draw(st.sampled_from([None, 'in'])), 'cname': draw(st.sampled_from([None, 'cn']))}
 
 
@@ -287,8 +291,8 @@ def tag(case, f):
 
 
 SUBS = [
-    Sub('delimited', frame_cases(), check_delimited, quick=1200, thorough=48000, tag=tag,
+    Sub('delimited', frame_cases(), check_delimited, quick=4800, thorough=48000, tag=tag,
         rule='to_delimited/to_csv/to_tsv -> from_* round trip under the unambiguous-text rule'),
-    Sub('structural', struct_cases(), check_struct, quick=1000, thorough=24000, tag=tag,
+    Sub('structural', struct_cases(), check_struct, quick=4000, thorough=24000, tag=tag,
         rule='pairs / records / items / pickle / deepcopy round trips'),
 ]
